@@ -8,6 +8,7 @@ counts only after it is CONFIRMED to vanish identically (goal symbols replaced b
 exponential polynomials: all coefficients of the n^j b^n terms must be 0).  Every confirmed relation must reduce to 0
 modulo a grevlex Groebner basis of Polar's basis (sympy.groebner / reduce); when Polar reports no invariants, no confirmed
 non-zero relation may exist."""
+import random
 from fractions import Fraction as F
 
 from .. import polar_api as P
@@ -56,7 +57,126 @@ def generate(seed, tier):
             c["timeout"] = 40 if tier == "quick" else 60
         elif tier == "quick":
             c["timeout"] = 30
-    return CF.order_cases(cases, cli, tier)
+    out = CF.order_cases(cases, cli, tier)
+    sc = symconst_cases(seed, tier)
+    step = max(1, len(out) // (len(sc) + 1))
+    for j, c in enumerate(sc):
+        out.insert(min(len(out), (j + 1) * step), c)
+    return out
+
+
+SYMCONST_TEMPLATES = [
+    # (text with the symbolic constant a, goals or None)
+    ("x = a\ny = a\nz = a\nwhile true:\n    x = x + 1\n    y = y + 2\n    z = z + 3\nend\n", None),
+    ("x = a\ny = 2*a\nwhile true:\n    x = 2*x\n    y = 4*y\nend\n", None),
+    ("x = a\ny = 1\nz = 0\nwhile true:\n    x = x + y\n    y = y + 1\n    z = z + a\nend\n", None),
+    ("x = 0\ny = a\nwhile true:\n    x = x + 1 {1/2} x - 1\n    y = y + a\nend\n", ["E(x)", "E(y)", "E(x**2)"]),
+    ("x = a\ny = a*a\nz = 1\nwhile true:\n    x = 3*x\n    y = 9*y\n    z = 3*z\nend\n", None),
+]
+
+
+def symconst_cases(seed, tier):
+    """loops with a SYMBOLIC constant a (initial value / increment): the closed forms and the basis elements live over Q(a); the
+    relations among the goals that do not mention a (x - 2*y + z = 0 for x = a+n, y = a+2n, z = a+3n) must still be generated"""
+    out = []
+    reps = 1 if tier == "quick" else 4
+    for j, (text, goals) in enumerate(SYMCONST_TEMPLATES * reps):
+        cs = K.harness_seed(seed, ID + "-symconst", j)
+        rng = random.Random(cs)
+        t = text
+        if j >= len(SYMCONST_TEMPLATES):
+            t = t.replace("+ 1\n", f"+ {rng.choice([1, 2, 5])}\n", 1).replace("+ 3\n", f"+ {rng.choice([3, 4, 7])}\n", 1)
+        out.append({"id": f"symconst-{j}-{cs}", "kind": "symconst", "text": t, "goals": goals, "params": {}, "sym": "a",
+                    "features": ["cli", "cli:symbolic-constant"]})
+    return out
+
+
+def run_symconst_case(case, tier):
+    """generic (parameter-free, rational-coefficient) relations among the goal sequences are computed from the reference engine at three
+    rational values of the constant (one stacked exact nullspace, confirmed at a fourth value); each must reduce to 0 modulo the printed
+    basis over the coefficient field Q(a)"""
+    import re
+    import sympy as sp
+    res = {"fingerprint": K.fingerprint(case["text"], case.get("goals")), "features": list(case.get("features", [])), "events": {},
+           "violations": [], "comparisons": 0, "refusals": []}
+    try:
+        ctx = CF.run_polar_cli(case)
+    except P.CliRefused as e:
+        res.update(verdict="inconclusive", reason="refused", refusal="cli:" + e.key)
+        return res
+    except CF.CliSkip as e:
+        res.update(verdict="inconclusive", reason=e.reason, detail=e.detail)
+        return res
+    res["events"] = dict(CF.LOG["events"])
+    res["events"]["polar.main(--invariants)"] = 1
+    gids = ctx["goal_ids"]
+    k = len(gids)
+    specs = [CF.parse_goal_id(g) for g in gids]
+    D = 2
+    monos = CF.monomials_upto(k, D)
+    L = len(monos) + 6
+    a = sp.Symbol(case["sym"])
+    vals = [F(3, 7), F(-5, 11), F(13, 4), F(8, 9)]
+    rows_all, rows_confirm = [], []
+    for vi, v in enumerate(vals):
+        text_v = re.sub(r"\b%s\b" % case["sym"], f"({v.numerator}/{v.denominator})", case["text"])
+        try:
+            table = CF.oracle_goal_table(text_v, {}, specs, L + 2, max_states=4000)
+        except CF.CliSkip as e:
+            res.update(verdict="inconclusive", reason=e.reason, detail=e.detail)
+            return res
+        for n in range(2, L + 2):
+            row = []
+            for m in monos:
+                val = F(1)
+                for gi, e in enumerate(m):
+                    val *= table[gi][n] ** e
+                row.append(val)
+            (rows_all if vi < 3 else rows_confirm).append(row)
+    M = sp.Matrix([[sp.Rational(x.numerator, x.denominator) for x in r] for r in rows_all])
+    null = M.nullspace()
+    Mc = sp.Matrix([[sp.Rational(x.numerator, x.denominator) for x in r] for r in rows_confirm])
+    gsyms = [sp.Symbol(f"g{i}") for i in range(k)]
+    rel_polys = []
+    for vec in null:
+        if any(x != 0 for x in (Mc * vec)):
+            continue   # holds at three values only by coincidence: not generic
+        poly = sum(c * sp.Mul(*[gs ** e for gs, e in zip(gsyms, m)]) for c, m in zip(vec, monos))
+        rel_polys.append(sp.expand(poly))
+    res["comparisons"] += len(rows_all) + len(rows_confirm)
+    # the printed basis over Q(a)
+    basis = []
+    for q in ctx["printed"]:
+        expr = sp.sympify(q)
+        sub = {}
+        for gid, gs in zip(gids, gsyms):
+            for cand in expr.free_symbols | expr.atoms(sp.Function):
+                if str(cand) == gid:
+                    sub[cand] = gs
+        expr = expr.xreplace(sub)
+        if (expr.free_symbols - set(gsyms) - {a}) or expr.atoms(sp.Function):
+            res.update(verdict="inconclusive", reason="oracle-unsupported", detail=f"basis element {q} not over the goal symbols")
+            return res
+        basis.append(expr)
+    viol = []
+    if rel_polys:
+        if not basis:
+            viol.append({"kind": "relation-exists-but-none-reported", "key": None,
+                         "detail": f"goals {gids} of\n{case['text']}satisfy the parameter-free relation {rel_polys[0]} (g_i = goals in order) for every value of {a}, but no invariants are reported"})
+        else:
+            G = sp.groebner(basis, *gsyms, domain=sp.QQ.frac_field(a), order="grevlex")
+            for rp in rel_polys:
+                res["comparisons"] += 1
+                _, rem = G.reduce(rp)
+                if rem != 0:
+                    viol.append({"kind": "relation-not-generated", "key": None,
+                                 "detail": f"goals {gids} of\n{case['text']}satisfy {rp} = 0 (g_i = goals in order) for every value of {a}; it does not reduce to 0 modulo the printed basis {ctx['printed']} over Q({a}) (remainder {rem})"})
+                    break
+    res["violations"] = viol
+    res["nontrivial"] = bool(rel_polys)
+    res["verdict"] = "violated" if viol else "held"
+    res["sample"] = {"program": case["text"], "goals": gids, "generic_relations": [str(r_) for r_ in rel_polys][:3], "printed_invariants": [str(b) for b in ctx["printed"]][:4]}
+    return res
 
 
 def worker_init(tier):
@@ -65,6 +185,8 @@ def worker_init(tier):
 
 
 def run_case(case, tier):
+    if case["kind"] == "symconst":
+        return run_symconst_case(case, tier)
     if case["kind"] == "cli":
         return run_cli_case(case, tier)
     return run_direct_case(case, tier)
